@@ -63,6 +63,8 @@ func runOracles(res *Result, prop string, c *Case) {
 		oracleC10(res, c)
 	case "C13":
 		oracleC13(res, c)
+	case "C19":
+		oracleC19(res, c)
 	}
 }
 
